@@ -40,6 +40,13 @@ def replay_flt_{tag}(title, {ARGS}):
         cond(f"doc_{k}", k + 14, f'pinned(title, {k}, "/documentation")', holes)
         cond(f"docinner_{k}", k + 15, f'pinned(title, {k}, "/documentation")', holes + f" and title[{k + 14}] in TCH")
         cond(f"test_{k}", k + 11, f'pinned(title, {k}, "/testcases")', holes + f" and title[{k + 10}] in TCH")
+        # the words without their slash: 'xdocumentation', 'a/documentations' ... are ordinary titles unless the hole is the slash
+        cond(f"docword_{k}", k + 13, f'pinned(title, {k}, "documentation")', holes)
+        cond(f"testword_{k}", k + 9, f'pinned(title, {k}, "testcases")', holes)
+    cond("docword_0", 13, 'pinned(title, 0, "documentation")', "True")
+    cond("testword_0", 9, 'pinned(title, 0, "testcases")', "True")
+    for k in range(1, L + 1):
+        pass
     # two consecutive pages through the real loop (state carried between iterations); titles differ so that the store keeps both
     out.append('''
 def seq_two(sel1: bool, mi1: int, text1: str, red1: bool, tgt1: str, sel2: bool, mi2: int, text2: str, red2: bool, tgt2: str) -> bool:
